@@ -152,9 +152,12 @@ pub fn generate(prop: &str, _tier: Tier, rng: &mut Rng, _idx: u64) -> Case {
             g.drain();
             finish_case(g, "inbound")
         }
+        "C01" => crate::codec::codec_out(rng, _tier == Tier::Thorough),
+        "C02" => crate::codec::codec_in(rng),
         "C03" => crate::profiles::framing(rng),
         "C04" => crate::hostile::hostile_case(rng),
         "C16" => crate::profiles::wake_base(rng),
+        "C12" => crate::profiles::maxpacket(rng),
         "C13" => crate::profiles::termination(rng),
         "C14" => crate::profiles::teardown(rng),
         "C15" => crate::profiles::cancel(rng),
@@ -336,6 +339,41 @@ pub fn judge(prop: &str, sc: &Scenario, aux: Option<&Scenario>) -> Judged {
                 j.nontrivial.push(fnv_of(&(stream, cuts)));
             }
         }
+        "C01" => {
+            viols.extend(crate::codec::c01(&a, sc));
+            for p in &a.wire {
+                use crate::refcodec::Packet as P;
+                let key: (u8, Vec<u8>, usize) = match &p.pkt {
+                    P::Connect(c) => (1, c.props.0.iter().map(|x| x.0).chain(c.will.iter().flat_map(|w| w.props.0.iter().map(|x| x.0 | 0x80))).collect(), (c.username.is_some() as usize) | (c.password.is_some() as usize) << 1 | (c.will.is_some() as usize) << 2),
+                    P::Publish(x) => (3, x.props.0.iter().map(|x| x.0).collect(), (x.qos as usize) | (x.retain as usize) << 2),
+                    P::Subscribe(x) => (8, x.props.0.iter().map(|x| x.0).collect(), x.filters.len()),
+                    P::Unsubscribe(x) => (10, x.props.0.iter().map(|x| x.0).collect(), x.filters.len()),
+                    P::Disconnect(x) => (14, x.props.0.iter().map(|x| x.0).collect(), x.reason as usize),
+                    P::Auth(x) => (15, x.props.0.iter().map(|x| x.0).collect(), x.reason as usize),
+                    _ => continue,
+                };
+                let size_class = match p.len { 0..=129 => 0u8, 130..=16_386 => 1, 16_387..=2_097_154 => 2, _ => 3 };
+                j.nontrivial.push(fnv_of(&(key, size_class)));
+            }
+        }
+        "C02" => {
+            viols.extend(crate::codec::c02(&a, sc));
+            for i in &a.inbound {
+                if let (Some(p), Some(_)) = (&i.p.pkt, i.avail_seq) {
+                    use crate::refcodec::Packet as P;
+                    let (ids, extra): (Vec<u8>, usize) = match p {
+                        P::Connack(x) => (x.props.0.iter().map(|y| y.0).collect(), x.reason as usize),
+                        P::Publish(x) => (x.props.0.iter().map(|y| y.0).collect(), x.qos as usize | (x.payload.len() / 512) << 2),
+                        P::Puback(x) | P::Pubrec(x) | P::Pubrel(x) | P::Pubcomp(x) => (x.props.0.iter().map(|y| y.0).collect(), x.reason as usize),
+                        P::Suback(x) | P::Unsuback(x) => (x.props.0.iter().map(|y| y.0).collect(), x.reasons.len()),
+                        P::Disconnect(x) | P::Auth(x) => (x.props.0.iter().map(|y| y.0).collect(), x.reason as usize),
+                        _ => (vec![], 0),
+                    };
+                    let size_class = match i.p.bytes_len { 0..=129 => 0u8, 130..=16_386 => 1, _ => 2 };
+                    j.nontrivial.push(fnv_of(&(p.kind() as u8, ids, extra, i.p.form as u8, size_class)));
+                }
+            }
+        }
         "C04" => {
             viols.extend(oracle::c04(&a));
             // non-trivial: hostile bytes were actually consumed, or a fault actually fired
@@ -345,6 +383,34 @@ pub fn judge(prop: &str, sc: &Scenario, aux: Option<&Scenario>) -> Judged {
             if !raw.is_empty() || faults.iter().any(|f| f.0 || f.1) {
                 let first_bytes: Vec<u8> = a.inbound.iter().filter(|i| i.p.pkt.is_none()).map(|i| (i.p.bytes_len % 251) as u8).collect();
                 j.nontrivial.push(fnv_of(&(raw, phase_run, faults, first_bytes, a.wire.len())));
+            }
+        }
+        "C12" => {
+            let twin_sc = crate::profiles::without_max_packet(sc);
+            let wt = replay(&twin_sc);
+            let at = Analysis::of(&wt);
+            j.steps += wt.steps_done;
+            j.polls += wt.polls;
+            drop(wt);
+            viols.extend(oracle::c12(&a, &at, probe_start(sc)));
+            let m = a.inbound.iter().find_map(|i| match &i.p.pkt {
+                Some(Packet::Connack(c)) => c.props.u32(crate::refcodec::pid::MAXIMUM_PACKET_SIZE),
+                _ => None,
+            });
+            if let Some(m) = m {
+                for o in a.ops.values() {
+                    let l = match &o.spec {
+                        OpSpec::Ping => Some(2usize),
+                        OpSpec::Disconnect(_) => at.wire.iter().find(|p| matches!(p.pkt, Packet::Disconnect(_))).map(|p| p.len),
+                        _ => at.request_of(o.idx).first().map(|p| p.len),
+                    };
+                    if let Some(l) = l {
+                        let d = l as i64 - m as i64;
+                        if (-1..=1).contains(&d) || o.err() == Some("MaximumPacketSizeExceeded") {
+                            j.nontrivial.push(fnv_of(&(o.spec.kind_name(), d.clamp(-2, 2), m.min(70_000), l.min(70_000))));
+                        }
+                    }
+                }
             }
         }
         "C16" => {
